@@ -13,7 +13,7 @@ import sys
 
 REPO = os.environ.get('PAMQP_REPO', '/repo')
 HERE = os.path.dirname(os.path.abspath(__file__))
-OUT = os.path.join(os.path.dirname(HERE), 'lean', 'Pamqp', 'Generated')
+OUT = os.environ.get('VERIF_GEN_OUT') or os.path.join(os.path.dirname(HERE), 'lean', 'Pamqp', 'Generated')
 
 WIRE = {'bit', 'octet', 'short', 'long', 'longlong', 'shortstr', 'longstr', 'table', 'timestamp'}
 
@@ -431,6 +431,62 @@ def init_info(func, text):
     return {'params': params, 'order': order, 'stores': stores, 'validates': calls_validate}
 
 
+RUNTIME_NOTES = []     # disagreements between the syntactic and the runtime reading of a data table
+RUNTIME_USED = []      # places where only the runtime reading was available
+
+
+def runtime():
+    try:
+        import introspect
+        return introspect.load(REPO) or {}
+    except Exception as e:  # noqa
+        sys.stderr.write('introspect unavailable: %r\n' % (e,))
+        return {}
+
+
+def reconcile(label, ast_val, ast_ok, rt_val, rt_ok=True):
+    """the value to use for one data item: the syntactic reading when there is one (and then it must agree
+    with the runtime reading), else the runtime reading, else the unrecognised syntactic one"""
+    if ast_ok:
+        if rt_val is not None and rt_ok and rt_val != ast_val:
+            RUNTIME_NOTES.append('%s: source says %r, the imported module has %r' % (label, ast_val, rt_val))
+        return ast_val
+    if rt_val is not None and rt_ok:
+        RUNTIME_USED.append(label)
+        return rt_val
+    return ast_val
+
+
+def reconcile_class(qual, info, R):
+    rc = (R.get('classes') or {}).get(qual)
+    if rc is None:
+        return
+    ra = rc.get('attrs', {})
+    for k in ('index', 'frame_id', 'name', 'synchronous', 'valid_responses'):
+        if k not in info['attrs'] and k not in ra:
+            continue
+        a = info['attrs'].get(k)
+        a_ok = k in info['attrs'] and not isinstance(a, dict)
+        r = ra.get(k)
+        r_ok = k in ra and not isinstance(r, dict)
+        if k in info['attrs'] or r_ok:
+            v = reconcile('%s.%s' % (qual, k), a, a_ok, r if r_ok else None, r_ok)
+            if a_ok or r_ok:
+                info['attrs'][k] = v
+    info['slots'] = reconcile(qual + '.__slots__', info['slots'], info['slots'] is not None, rc.get('slots'))
+    rt_types = rc.get('types') or {}
+    for s_ in list(info['types']):
+        info['types'][s_] = reconcile('%s._%s' % (qual, s_), info['types'][s_], isinstance(info['types'][s_], str),
+                                      rt_types.get(s_), isinstance(rt_types.get(s_), str))
+    if info['flags'] is not None and rc.get('flags') is not None:
+        for k in list(info['flags']):
+            info['flags'][k] = reconcile('%s.flags[%s]' % (qual, k), info['flags'][k], isinstance(info['flags'][k], int),
+                                         rc['flags'].get(k), isinstance(rc['flags'].get(k), int))
+    elif info['flags'] is None and rc.get('flags') is not None and all(isinstance(v, int) for v in rc['flags'].values()):
+        RUNTIME_USED.append(qual + '.flags')
+        info['flags'] = dict(rc['flags'])
+
+
 def extract_catalogue():
     text = src('commands.py')
     tree = ast.parse(text)
@@ -468,6 +524,17 @@ def extract_catalogue():
                 except NotConst:
                     key = None
                 index_mapping.append((key, ' '.join(seg(text, v).split())))
+    R = runtime()
+    for qual, info in classes.items():
+        reconcile_class(qual, info, R)
+    for on in list(outer_frame_id):
+        ro = (R.get('outer') or {}).get(on, {}).get('frame_id')
+        outer_frame_id[on] = reconcile(on + '.frame_id', outer_frame_id[on], isinstance(outer_frame_id[on], int), ro, isinstance(ro, int))
+    rim = R.get('index_mapping')
+    ast_ok = bool(index_mapping) and all(k is not None and ref in classes for k, ref in index_mapping)
+    rim_ok = bool(rim) and all(k is not None and q is not None for k, q in rim)
+    index_mapping = [tuple(x) for x in reconcile('commands.INDEX_MAPPING', [list(x) for x in index_mapping], ast_ok,
+                                                 rim if rim_ok else None, rim_ok)]
     methods = []
     for key, ref in index_mapping:
         c = classes.get(ref)
@@ -680,9 +747,22 @@ def main():
         changed.append('Catalogue.lean')
     try:
         import translate_more
+        translate_more.RECONCILE = reconcile
+        translate_more.RUNTIME.clear()
+        translate_more.RUNTIME.update(runtime())
         changed += translate_more.run(REPO, OUT, data, write_if_changed)
     except ImportError:
         pass
+    data['runtime'] = {'mismatches': sorted(set(RUNTIME_NOTES)), 'used': sorted(set(RUNTIME_USED))}
+    rt_lean = '\n'.join(['/-! GENERATED by tools/translate.py - do not edit. Data items the translator read both syntactically and',
+                         'from the imported module and found different (`runtimeMismatches`), and items only the imported module',
+                         'could supply because of how the source spells them (`runtimeUsed`). -/',
+                         'namespace Pamqp.Generated', '',
+                         'def runtimeMismatches : List String := %s' % llist(lstr(x[:300]) for x in data['runtime']['mismatches']),
+                         'def runtimeUsed : List String := %s' % llist(lstr(x[:300]) for x in data['runtime']['used']),
+                         '', 'end Pamqp.Generated', ''])
+    if write_if_changed(os.path.join(OUT, 'Runtime.lean'), rt_lean):
+        changed.append('Runtime.lean')
     if write_if_changed(os.path.join(OUT, 'generated.json'), json.dumps(data, indent=1, sort_keys=True, default=str)):
         changed.append('generated.json')
     print('translate: %d methods, changed: %s' % (len(cat['methods']), ', '.join(changed) or 'nothing'))
